@@ -531,16 +531,29 @@ def run_check(mod, tier="quick", seed=0, replay=None):
     if forb:
         problems.append("forbidden declarations: " + "; ".join(forb[:10]))
     proof_ok = ok_build and not problems and n_dis == n_obl
-    extra_obl = getattr(mod, "extra_obligations", None)   # e.g. C19's regenerated obligations
+    extra_obl = getattr(mod, "extra_obligations", None)   # regenerated obligations (C19's effect model, src2coq)
     extra_info = None
-    if extra_obl is not None and ok_build:
-        extra_info = extra_obl(tier)
-        n_obl += extra_info["obligations"]
-        n_dis += extra_info["discharged"]
-        if extra_info["obligations"] != extra_info["discharged"]:
+    extra_future = None
+
+    def take_extra(info):
+        nonlocal n_obl, n_dis, proof_ok, extra_info
+        extra_info = info
+        n_obl += info["obligations"]
+        n_dis += info["discharged"]
+        if info["obligations"] != info["discharged"]:
             proof_ok = False
-            problems += extra_info.get("problems", [])
-    log("[%s] obligations %d/%d%s" % (pid, n_dis, n_obl, "" if proof_ok else "  PROBLEMS: " + " | ".join(problems)[:1500]))
+            problems.extend(info.get("problems", []))
+        log("[%s] obligations %d/%d%s" % (pid, n_dis, n_obl, "" if proof_ok else "  PROBLEMS: " + " | ".join(problems)[:1500]))
+
+    if extra_obl is not None and ok_build:
+        if getattr(mod, "EXTRA_OBLIGATIONS_ASYNC", False):
+            # compiled while the correspondence runs; collected before the verdict
+            from concurrent.futures import ThreadPoolExecutor
+            extra_future = ThreadPoolExecutor(max_workers=1).submit(extra_obl, tier)
+        else:
+            take_extra(extra_obl(tier))
+    if extra_future is None and extra_info is None:
+        log("[%s] obligations %d/%d%s" % (pid, n_dis, n_obl, "" if proof_ok else "  PROBLEMS: " + " | ".join(problems)[:1500]))
 
     # ---- 2. correspondence ----------------------------------------------------------------
     if replay:
@@ -599,6 +612,12 @@ def run_check(mod, tier="quick", seed=0, replay=None):
                 skipped += 1
     log("[%s] %d evaluations, %d disagreements, %d legacy-agreements, %d predicate failures, %d skipped"
         % (pid, evaluations, len(disagreements), len(legacy_hits), len(failing), skipped))
+
+    if extra_future is not None:
+        try:
+            take_extra(extra_future.result())
+        except Exception as e:  # fail closed
+            take_extra({"obligations": 1, "discharged": 0, "problems": ["regenerated obligations could not be run: %r" % (e,)]})
 
     # ---- 3. verdict -----------------------------------------------------------------------
     def fails_now(case):
